@@ -436,6 +436,50 @@ pub fn run(lines: &[Value], seed: u64, base_idx: u64, points: usize) -> Summary 
                 }
             }
         }
+        // ---- range of the user's type: the same call with masses and shifts scaled by 2^k (k = +-600: their squares leave the f64
+        // range) and the wide-range scalar must return the f64 results scaled by the matching power of two - u, L, its
+        // factorisation, lambda and the Gaussians unchanged, u_l, L^-1 u and the momenta by 2^k, v by 2^(2k), bit for bit
+        // (everything between the Feynman parameters and these values is +, -, *, / and sqrt); the jacobian by 2^(-2k dod)
+        for k2 in 0..2usize {
+            use crate::xf::Xf;
+            let pt = make_point(&line, dim, None, &mut rng, 0);
+            let ri = k2 % samplers.len();
+            let (_sig, p) = &line.routings[ri];
+            let edf: EdgeData<f64> = (0..e).map(|i| (if line.m[i] != 0.0 { Some(line.m[i]) } else { None }, p[i].clone())).collect();
+            let of = samplers[ri].sample_f64(&pt.x, &edf, &Settings::new(None, false, true));
+            let fo = match (&of.outcome, of.obs.as_ref()) { (Outcome::Ok, Some(o)) if o.meta.is_some() => o, _ => continue };
+            let fm = fo.meta.as_ref().unwrap();
+            if !(fo.u.is_normal() && fo.v.is_normal() && fo.v > 0.0 && fo.jacobian.is_normal()) { continue; }
+            for &k in &[600i64, -600] {
+                let edx: EdgeData<Xf> = (0..e).map(|i| (if line.m[i] != 0.0 { Some(Xf::scaled(line.m[i], k)) } else { None }, p[i].iter().map(|&c| Xf::scaled(c, k)).collect())).collect();
+                let xx: Vec<Xf> = pt.x.iter().map(|&v| Xf::f(v)).collect();
+                let ox = samplers[ri].sample_xf(&xx, &edx, &Settings::new(None, false, true));
+                cx.sm.evaluations += 1;
+                cx.sm.count("xf_samples");
+                let inst = json!({"line": inst, "idx": idx, "routing": ri, "dd": true, "xf_k": k, "x": pt.x.iter().map(|v| hexf(*v)).collect::<Vec<_>>()});
+                let xo = match (&ox.outcome, ox.obs.as_ref()) {
+                    (Outcome::Ok, Some(o)) if o.meta.is_some() => o,
+                    (other, _) => { cx.sm.violation("C19", format!("[wide-range scalar] kinematics scaled by 2^{}: outcome {} where the f64 call on the unscaled kinematics returns a sample", k, other.name()), inst, json!({})); continue; }
+                };
+                let xm = xo.meta.as_ref().unwrap();
+                let same = |a: Xf, b: f64, kk: i64| { let w = Xf::scaled(b, kk); (a.m.is_nan() && w.m.is_nan()) || a == w };
+                let mut bad: Vec<(&str, String)> = vec![];
+                if !same(xo.u, fo.u, 0) { bad.push(("C08", "u changes with the scale of the kinematics".into())); }
+                if !(0..l).all(|i| (0..l).all(|j| same(xm.l_matrix[i][j], fm.l_matrix[i][j], 0) && same(xm.inverse[i][j], fm.inverse[i][j], 0))) { bad.push(("C08", "L or its inverse changes with the scale of the kinematics".into())); }
+                if !same(xo.v, fo.v, 2 * k) { bad.push(("C09", format!("v is not the f64 value scaled by 2^{} (got {:e} x 2^{}, f64 {:e})", 2 * k, xo.v.m, xo.v.e, fo.v))); }
+                if !(0..l).all(|i| (0..d).all(|c| same(xm.u_vectors[i][c], fm.u_vectors[i][c], k) && same(xm.shift[i][c], fm.shift[i][c], k))) { bad.push(("C10", format!("u_l or L^-1 u is not the f64 value scaled by 2^{}", k))); }
+                if !(0..l).all(|i| (0..d).all(|c| same(xo.loop_momenta[i][c], fo.loop_momenta[i][c], k))) { bad.push(("C10", format!("the loop momenta are not the f64 values scaled by 2^{}", k))); }
+                if !(same(xm.lambda, fm.lambda, 0) && (0..l).all(|i| (0..d).all(|c| same(xm.q_vectors[i][c], fm.q_vectors[i][c], 0)))) { bad.push(("C13", "lambda or the Gaussian vectors change with the scale of the kinematics".into())); }
+                // jacobian: log2 comparison
+                let lj = xo.jacobian.m.abs().log2() + xo.jacobian.e as f64;
+                let want = fo.jacobian.abs().log2() - 2.0 * k as f64 * samplers[ri].dod();
+                if !(xo.jacobian.m > 0.0 && (lj - want).abs() <= 1e-9 * want.abs().max(1.0)) { bad.push(("C11", format!("log2 jacobian = {} instead of {} = log2(f64 jacobian) - 2 k dod", lj, want))); }
+                for (prop, what) in bad {
+                    cx.sm.violation(prop, format!("[wide-range scalar] kinematics scaled by 2^{}: {}", k, what), inst.clone(), json!({}));
+                    cx.sm.violation("C19", format!("[wide-range scalar] the range of the user's type is not preserved (kinematics scaled by 2^{}): {}", k, what), inst.clone(), json!({}));
+                }
+            }
+        }
         // ---- C06 in the user's type: coordinates 1e-24 away from the exact boundaries of the first step; next to 1
         if e >= 2 {
             let full = (1usize << e) - 1;
